@@ -208,19 +208,7 @@ Proof.
 Qed.
 
 (* ---- the status datasets and the other management models: same round trip ---------------------------- *)
-Definition nfd_models : list (list field) :=
-  let S := Generated.Schemas.nfd_mgmt_ControlParameters in
-  [Generated.Schemas.nfd_mgmt_ControlParameters; Generated.Schemas.nfd_mgmt_ControlParametersValue;
-   Generated.Schemas.nfd_mgmt_ControlResponse; Generated.Schemas.nfd_mgmt_CsInfo;
-   Generated.Schemas.nfd_mgmt_FaceEventNotification; Generated.Schemas.nfd_mgmt_FaceEventNotificationValue;
-   Generated.Schemas.nfd_mgmt_FaceQueryFilter; Generated.Schemas.nfd_mgmt_FaceQueryFilterValue;
-   Generated.Schemas.nfd_mgmt_FaceStatus; Generated.Schemas.nfd_mgmt_FaceStatusMsg;
-   Generated.Schemas.nfd_mgmt_FibEntry; Generated.Schemas.nfd_mgmt_FibStatus;
-   Generated.Schemas.nfd_mgmt_GeneralStatus; Generated.Schemas.nfd_mgmt_NextHopRecord;
-   Generated.Schemas.nfd_mgmt_RibEntry; Generated.Schemas.nfd_mgmt_RibStatus; Generated.Schemas.nfd_mgmt_Route;
-   Generated.Schemas.nfd_mgmt_Strategy; Generated.Schemas.nfd_mgmt_StrategyChoice;
-   Generated.Schemas.nfd_mgmt_StrategyChoiceMsg].
-
+(* [nfd_models] (the 20 descriptors) is defined in Model/NfdMgmt.v, where the extracted model uses it too *)
 Lemma nfd_models_wf : forallb wf_fieldsb nfd_models = true.
 Proof. vm_compute. reflexivity. Qed.
 
@@ -233,3 +221,11 @@ Proof.
   intros Hin. apply parse_encode_roundtrip. apply wf_fieldsb_spec.
   exact (proj1 (forallb_forall _ _) nfd_models_wf fs Hin).
 Qed.
+
+(* the form the extracted model runs (Cls.parse / obj.encode of an application) *)
+Theorem dataset_parse_wire fs vs w :
+  In fs nfd_models ->
+  Forall2 (fun f v => fits (snd f) v) fs vs ->
+  dataset_wire fs vs = Ok w -> N.of_nat (length w) < two64 ->
+  dataset_parse fs w = Ok vs.
+Proof. unfold dataset_wire, dataset_parse. apply dataset_roundtrip. Qed.
